@@ -133,7 +133,40 @@ def _one_way_flag_continue(loop, cont, pm):
     return None
 
 
+def _flag_loop_normal_form(loop, f):
+    """`while not flag: ...; flag = E`  (flag assigned once, as the last statement of the body)  is  `while True: ...; if E: break`.
+    Returns (loop', f') on a copy of the function, or None."""
+    import copy
+    t = loop.test
+    if not (isinstance(t, ast.UnaryOp) and isinstance(t.op, ast.Not) and isinstance(t.operand, ast.Name)):
+        return None
+    flag = t.operand.id
+    stores = [n for b in loop.body for n in ast.walk(b) if isinstance(n, ast.Name) and n.id == flag and isinstance(n.ctx, ast.Store)]
+    last = loop.body[-1] if loop.body else None
+    if len(stores) != 1 or not (isinstance(last, ast.Assign) and len(last.targets) == 1 and isinstance(last.targets[0], ast.Name) and last.targets[0].id == flag):
+        return None
+    if isinstance(last.value, ast.Constant):
+        return None
+    fnode = copy.deepcopy(f.node)
+    target = None
+    for n in ast.walk(fnode):
+        if isinstance(n, ast.While) and n.lineno == loop.lineno and n.col_offset == loop.col_offset:
+            target = n
+    if target is None:
+        return None
+    exit_if = ast.copy_location(ast.If(test=target.body[-1].value, body=[ast.copy_location(ast.Break(), target.body[-1])], orelse=[]), target.body[-1])
+    target.body[-1] = exit_if
+    target.test = ast.copy_location(ast.Constant(value=True), target.test)
+    g = copy.copy(f)
+    g.node = fnode
+    return target, g
+
+
 def classify_while(loop, f, idx):
+    nf = _flag_loop_normal_form(loop, f)
+    if nf is not None:
+        cls_, why = classify_while(nf[0], nf[1], idx)
+        return cls_, ("(flag loop `while not %s` read as `while True: ... if <%s>: break`) " % (loop.test.operand.id, loop.test.operand.id)) + why
     pm = parent_map(f.node)
     body_sts = list(iter_stmts(loop.body))
     # ---------------- counters
